@@ -218,7 +218,7 @@ func (g *gen) run() {
 	// (1) every one of the 2^5 genum settings on every base definition; parsable subsets vary with the setting
 	bases := append([]genumCase{}, genumBase...)
 	if g.thorough {
-		for len(bases) < 40 {
+		for len(bases) < g.r.N(40) {
 			c := g.randomGenum()
 			bases = append(bases, *c)
 		}
